@@ -19,7 +19,8 @@ P = {'id': 'C14',
               'select_in_word_spec',
               'select_in_word_total',
               'bit_reverse_spec',
-              'bit_reverse_involutive'],
+              'bit_reverse_involutive',
+              'string_hash_simd_is_scalar'],
  'trusted': ['the vector intrinsics themselves are not modelled: a W-lane compare + movemask + trailing_zeros is taken to be "first differing / matching lane", '
              'CRC32 r32, r/m is taken to be 8k steps of the bit-serial division, PCMPESTRI and PDEP/PEXT/BZHI are covered by the differential oracle only',
              'tiers below the native one are reached through the repo hook ZIPORA_VERIF_DISABLE (masks detected CPU features, add-only, cfg(zipora_verif)); '
